@@ -258,6 +258,64 @@ func zzC15Startup(depth int) {
 	verifrt.Reach("c15-end")
 }
 
+// zzC15StartupRecovery: the same, with the wallet started in recovery mode
+// (recoveryWindow > 0, as on a resumed recovery): recovery extends the tip
+// along the backend's chain, so afterwards the wallet may sit anywhere from
+// the last common block to the backend's tip - but on the best chain, with
+// every remembered hash up to there on it and no confirmation in an orphaned
+// block.
+func zzC15StartupRecovery(depth int) {
+	w := &zzC15World{zzWalletWorld: zzNewWalletWorld(10001, 4)}
+	c := w.chain
+	w.w.recoveryWindow = 1
+	txAt := 1 + verifrt.Choice(3, "tx-block")
+	addr := w.newAddress(waddrmgr.KeyScopeBIP0084, false)
+	tx := zzPayTo(addr, 50000, 1)
+	rec, err := wtxmgr.NewTxRecordFromMsgTx(tx, time.Unix(1600000000, 0))
+	zzW(err)
+	m := c.meta(c.blocks[txAt])
+	zzW(walletdb.Update(w.db, func(dbtx walletdb.ReadWriteTx) error { return w.w.addRelevantTx(dbtx, rec, &m) }))
+	w.txHash = &rec.Hash
+	bb := c.blocks[txAt]
+	w.txBlock = &bb
+	birthday := c.meta(c.blocks[0])
+
+	common := len(c.blocks) - 1 - depth
+	c.blocks = c.blocks[:common+1]
+	extra := verifrt.Choice(3, "new-branch-longer-by")
+	for k := 0; k < depth+extra; k++ {
+		t := c.tip()
+		c.blocks = append(c.blocks, zzBlk{height: t.height + 1, fork: c.nextFrk})
+		c.nextFrk++
+	}
+	if txAt > common {
+		w.txBlock = nil
+		verifrt.Reach("wallet-tx-orphaned")
+	}
+	if extra > 0 {
+		verifrt.Reach("new-branch-longer")
+	}
+	bs := &waddrmgr.BlockStamp{Height: birthday.Height, Hash: birthday.Hash, Timestamp: birthday.Time}
+	close(w.w.quit)
+	err = w.w.syncWithChain(bs)
+	verifrt.Assert(err == ErrWalletShuttingDown, "c15-startup-recovery-sync-reaches-rescan")
+
+	cb := c.blocks[common]
+	st := w.w.Manager.SyncedTo()
+	verifrt.Assert(st.Height >= cb.height && st.Height <= c.tip().height, "c15-startup-recovery-tip-between-common-block-and-backend-tip")
+	saved := c.blocks
+	for i, b := range c.blocks {
+		if b.height == st.Height {
+			c.blocks = c.blocks[:i+1]
+		}
+	}
+	w.check("c15-startup-recovery")
+	c.blocks = saved
+	verifrt.Reach("c15-end")
+}
+
+func ZzC15StartupRecovery1() { zzC15StartupRecovery(1) }
+func ZzC15StartupRecovery2() { zzC15StartupRecovery(2) }
 func ZzC15Startup1() { zzC15Startup(1) }
 func ZzC15Startup2() { zzC15Startup(2) }
 func ZzC15Startup3() { zzC15Startup(3) }
